@@ -195,6 +195,19 @@ class BytesV(Value):
         return 'Bytes(%d)' % len(self.items)
 
 
+class StructV(Value):
+    def __init__(self, fmt):
+        self.fmt = fmt
+
+    def __repr__(self):
+        return 'Struct(%r)' % self.fmt
+
+
+class FInfo(Value):
+    def __init__(self, kind):
+        self.kind = kind
+
+
 class FileH(Value):
     """an open file (or a path that names it): content is a Text / str for text files, a BytesV for binary ones"""
 
@@ -205,6 +218,8 @@ class FileH(Value):
         return 'File(%s,%s)' % (self.key, self.mode)
 
 
+_ELEMENTWISE = ('hypot', 'arctan2', 'cos', 'sin', 'tan', 'exp', 'log', 'log10', 'arccos', 'arcsin', 'arctan', 'power', 'maximum', 'minimum', 'sign', 'deg2rad', 'radians',
+                'rad2deg', 'degrees', 'sinh', 'cosh', 'tanh', 'expm1', 'log1p')
 _CODE_SIZE = {'x': 1, 'c': 1, 'b': 1, 'B': 1, '?': 1, 'h': 2, 'H': 2, 'i': 4, 'I': 4, 'l': 4, 'L': 4, 'q': 8, 'Q': 8, 'e': 2, 'f': 4, 'd': 8, 's': 1, 'p': 1}
 
 
@@ -232,6 +247,7 @@ def parse_struct(fmt):
 class FileDomain(NormDomain):
     name = 'FILE'
     scalar_mode = True
+    alias_inplace = False       # np.<ufunc>(..., out=x) writes into the cells of x (every view sees it)
 
     def __init__(self, **kw):
         NormDomain.__init__(self, **kw)
@@ -242,6 +258,8 @@ class FileDomain(NormDomain):
         self.count_src = {}       # count atom -> the writer's value
         self.assumed = []         # decisions taken from the valid range of the stored counts
         self.warned = []          # warnings.warn calls
+        self.stats = {}           # order-statistic atom -> (min / max / mean ..., [Rat of each cell])
+        self.tiny = set()         # atoms standing for a machine epsilon
         self._n = 0
 
     # ------------------------------------------------------------------ helpers
@@ -289,21 +307,51 @@ class FileDomain(NormDomain):
             if isinstance(op, (ast.BitAnd, ast.BitOr, ast.BitXor)):
                 return Unknown('bit operation on NaN')
             return NAN
+        if isinstance(op, (ast.Div, ast.FloorDiv, ast.Mod)) and isinstance(b, Const) and isinstance(b.v, (int, float)) and not isinstance(b.v, bool) and b.v == 0:
+            if isinstance(a, Const) and isinstance(a.v, (int, float)) and a.v == 0:
+                return NAN
+            return Junk('a number divided by zero (inf)')
         if isinstance(a, Const) and isinstance(b, Const) and isinstance(a.v, bool) and isinstance(b.v, bool) and isinstance(op, (ast.BitAnd, ast.BitOr, ast.BitXor)):
             return Const({ast.BitAnd: a.v and b.v, ast.BitOr: a.v or b.v, ast.BitXor: a.v != b.v}[type(op)])
         return self.interp.binop(op, a, b, node)
 
     def cell_compare(self, op, a, b, node):
         """Const(bool) or Unknown"""
+        for x, y in ((a, b), (b, a)):
+            if isinstance(x, Junk) and getattr(x, 'in_range', False) and isinstance(y, Const) and isinstance(y.v, (int, float)) and self.count_range is not None:
+                # a number put together from the leading bytes of a valid stored count and zero padding lies in the valid range as well
+                r = self._range_cmp(op if x is a else {ast.Lt: ast.Gt, ast.LtE: ast.GtE, ast.Gt: ast.Lt, ast.GtE: ast.LtE}.get(type(op), type(op))(), y.v, 'a partial sample')
+                if r is not None:
+                    return Const(r)
         for x in (a, b):
-            if isinstance(x, (Junk, Unknown)):
+            if isinstance(x, Unknown):
                 return Unknown('comparison with a value that is not followed')
+        for x in (a, b):
+            if isinstance(x, Junk):
+                return x            # a test on a number that is not a measurement: whichever way it goes, what it guards is not one either
         if is_nan(a) or is_nan(b):
             return Const(isinstance(op, ast.NotEq))
         r = self.scalar_compare(op, a, b, node)
         if r is None and isinstance(a, Const) and isinstance(b, Const):
             r = self.interp.compare(op, a, b, node)
         return Const(bool(r)) if r is not None and not isinstance(r, Value) else Unknown('comparison not decided')
+
+    def _range_cmp(self, op, c, what):
+        import operator
+        ops = {ast.Eq: operator.eq, ast.NotEq: operator.ne, ast.Lt: operator.lt, ast.LtE: operator.le, ast.Gt: operator.gt, ast.GtE: operator.ge}
+        if type(op) not in ops:
+            return None
+        lo, hi = self.count_range
+        if isinstance(op, (ast.Eq, ast.NotEq)):
+            if lo <= c <= hi:
+                return None
+            self.assumed.append('%s %s %r decided: valid counts lie in [%s, %s]' % (what, type(op).__name__, c, lo, hi))
+            return isinstance(op, ast.NotEq)
+        f = ops[type(op)]
+        if f(lo, c) == f(hi, c):
+            self.assumed.append('%s %s %r decided: valid counts lie in [%s, %s]' % (what, type(op).__name__, c, lo, hi))
+            return f(lo, c)
+        return None
 
     def scalar_compare(self, op, a, b, node):
         # a stored count against a constant: decided by the valid range of the format
@@ -333,6 +381,8 @@ class FileDomain(NormDomain):
 
     # ------------------------------------------------------------------ arithmetic
     def binop(self, op, a, b, node):
+        if isinstance(op, ast.MatMult) and isinstance(a, FArr) and isinstance(b, FArr):
+            return self.matmul(a, b, node)
         if isinstance(a, FArr) or isinstance(b, FArr):
             if not all(isinstance(x, FArr) or self.is_cell(x) for x in (a, b)):
                 return Unknown('array arithmetic with %r' % (b if isinstance(a, FArr) else a,))
@@ -448,12 +498,33 @@ class FileDomain(NormDomain):
         """(shape, [flat positions]) of arr[idx] for basic indexing, one boolean mask, or one list of integers; None: not followed"""
         items = list(idx.items) if isinstance(idx, Tup) and idx.kind == 'tuple' else [idx]
         # a boolean mask of the whole array
-        if len(items) == 1 and isinstance(items[0], FArr) and items[0].shape == arr.shape and arr.ndim >= 1:
+        if len(items) == 1 and isinstance(items[0], FArr) and items[0].shape == arr.shape and arr.ndim >= 1 \
+                and not all(self._int(x) is not None for x in items[0].values()):
             m = items[0].values()
             if all(isinstance(x, Const) and isinstance(x.v, bool) for x in m):
                 sel = [k for k, x in enumerate(m) if x.v]
                 return (len(sel),), sel
             return None
+        # pointwise indexing with one integer array per axis: a[rows, cols]
+        if len(items) == arr.ndim >= 2 and all(isinstance(x, (FArr, Tup)) for x in items):
+            lists = []
+            for x, d in zip(items, arr.shape):
+                cells = x.values() if isinstance(x, FArr) else x.items
+                if isinstance(x, FArr) and x.ndim != 1:
+                    return None
+                ii = [self._int(c) for c in cells]
+                if None in ii:
+                    return None
+                if any(not -d <= i < d for i in ii):
+                    raise AbsRaise('IndexError', node)
+                lists.append([i % d for i in ii])
+            if len({len(l) for l in lists}) != 1:
+                if min(len(l) for l in lists) == 1:
+                    n_ = max(len(l) for l in lists)
+                    lists = [l * n_ if len(l) == 1 else l for l in lists]
+                if len({len(l) for l in lists}) != 1:
+                    raise AbsRaise('IndexError', node)
+            return (len(lists[0]),), [arr.flat_index(idx) for idx in zip(*lists)]
         n_real = sum(1 for x in items if not (isinstance(x, Const) and (x.v is None or x.v is Ellipsis)))
         if any(isinstance(x, Const) and x.v is Ellipsis for x in items):
             k = [i for i, x in enumerate(items) if isinstance(x, Const) and x.v is Ellipsis][0]
@@ -537,6 +608,10 @@ class FileDomain(NormDomain):
                     if isinstance(c, Const):
                         if c.v:
                             b.v = val
+                    elif isinstance(c, Junk) and isinstance(b.v, Junk):
+                        j = Junk(b.v.why)
+                        j.maybe = val           # either the value stored under the mask, or the number that was there: not the sample in either case
+                        b.v = j
                     else:
                         b.v = Unknown('store under a mask cell that is not decided')
                 return True
@@ -624,6 +699,17 @@ class FileDomain(NormDomain):
             if name == 'real':
                 return v
             return None
+        if isinstance(v, StructV):
+            if name == 'size':
+                return self.struct_fn('calcsize', [Const(v.fmt)], {}, node)
+            if name == 'format':
+                return Const(v.fmt)
+            return None
+        if isinstance(v, FInfo):
+            if name in ('eps', 'tiny', 'resolution', 'smallest_normal') and v.kind == 'finfo':
+                self.tiny.add('machine_' + name)
+                return self.sym('machine_' + name)
+            return Unknown('machine limit %s' % name)
         if isinstance(v, DType):
             if name == 'itemsize':
                 return Const(v.size)
@@ -684,6 +770,10 @@ class FileDomain(NormDomain):
             return self.bytes_method(v, name, args, kwargs, node)
         if isinstance(v, FileH):
             return self.file_method(v, name, args, kwargs, node)
+        if isinstance(v, StructV):
+            if name in ('pack', 'pack_into', 'unpack', 'unpack_from', 'iter_unpack'):
+                return self.struct_fn(name, [Const(v.fmt)] + list(args), kwargs, node)
+            return Unknown('Struct method %s' % name)
         if isinstance(v, DType):
             if name == 'newbyteorder':
                 o = args[0].v if args and isinstance(args[0], Const) else 'S'
@@ -775,10 +865,12 @@ class FileDomain(NormDomain):
             return Const(None)
         if name == 'round':
             return FArr.of(v.shape, [self._quant(x, 'round') for x in self._vals(v)], v.dtype)
-        if name in ('min', 'max', 'sum', 'mean', 'any', 'all', 'std', 'ptp', 'argmin', 'argmax'):
+        if name in ('min', 'max', 'sum', 'mean', 'any', 'all', 'std', 'ptp', 'argmin', 'argmax', 'nonzero'):
             return self.call_ext('numpy.' + name, [v] + list(args), kwargs, node)
         if name in ('conj', 'conjugate'):
             return v
+        if name == 'dot' and args and isinstance(args[0], FArr):
+            return self.matmul(v, args[0], node)
         if name == 'clip':
             return Unknown('clip')
         if name == '__len__':
@@ -808,6 +900,68 @@ class FileDomain(NormDomain):
 
     # ------------------------------------------------------------------ library calls
     def call_ext(self, dotted, args, kwargs, node):
+        if isinstance(kwargs.get('out'), FArr) and dotted.startswith('numpy.'):
+            out = kwargs['out']
+            r = self.interp.call_value(ExtRef(dotted), list(args), {k: v for k, v in kwargs.items() if k != 'out'}, node, None)
+            if isinstance(r, FArr) and r.size == out.size:
+                for b, x in zip(out.boxes, r.values()):
+                    b.v = x
+                return out
+            if self.is_cell(r) and not isinstance(r, Unknown):
+                for b in out.boxes:
+                    b.v = r
+                return out
+            for b in out.boxes:
+                b.v = Unknown('result written through out= is not followed')
+            return out
+        tail = dotted.rsplit('.', 1)[-1]
+        if '.fft.' in dotted and tail in ('fftfreq', 'rfftfreq') and args and self._int(args[0]) is not None and 0 < self._int(args[0]) <= 64:
+            n = self._int(args[0])
+            d = kwargs.get('d', args[1] if len(args) > 1 else Const(1))
+            rd = self.rat(d)
+            if rd is not None:
+                ks = list(range(0, (n - 1) // 2 + 1)) + list(range(-(n // 2), 0)) if tail == 'fftfreq' else list(range(0, n // 2 + 1))
+                return FArr.of((len(ks),), [self.lift(Rat(self.R.const(k)) / (rd * n)) for k in ks])
+        if '.fft.' in dotted and tail in ('fftshift', 'ifftshift') and args and isinstance(args[0], FArr):
+            a = args[0]
+            axes = kwargs.get('axes', args[1] if len(args) > 1 else Const(None))
+            if isinstance(axes, Const) and axes.v is None:
+                ax = list(range(a.ndim))
+            elif self._int(axes) is not None:
+                ax = [self._int(axes) % a.ndim]
+            elif isinstance(axes, Tup) and all(self._int(x) is not None for x in axes.items):
+                ax = [self._int(x) % a.ndim for x in axes.items]
+            else:
+                return Unknown('fftshift axes')
+            order = []
+            for idx in itertools.product(*[range(d_) for d_ in a.shape]):
+                src = []
+                for k, (i, d_) in enumerate(zip(idx, a.shape)):
+                    sh = (d_ // 2) if tail == 'fftshift' else -(d_ // 2)
+                    src.append((i - sh) % d_ if k in ax else i)
+                order.append(a.flat_index(src))
+            return a.view(a.shape, order).__class__.of(a.shape, [a.boxes[k].v for k in order], a.dtype)
+        if tail == 'next_fast_len' and args and self._int(args[0]) is not None:
+            return None
+        if np_take := (dotted == 'numpy.take' and len(args) >= 2 and isinstance(args[0], FArr)):
+            ax = kwargs.get('axis', args[2] if len(args) > 2 else Const(None))
+            idx = args[1]
+            a = args[0]
+            if isinstance(ax, Const) and ax.v is None:
+                return self.subscript(a.view((a.size,)), idx, node)
+            k = self._int(ax)
+            if k is not None:
+                k %= a.ndim
+                sl = Slice(Const(None), Const(None), Const(None))
+                return self.subscript(a, Tup([sl] * k + [idx]), node)
+        if dotted in ('numpy.add.outer', 'numpy.multiply.outer', 'numpy.subtract.outer', 'numpy.outer') and len(args) == 2 and all(isinstance(a, FArr) for a in args):
+            op = {'numpy.add.outer': ast.Add(), 'numpy.subtract.outer': ast.Sub()}.get(dotted, ast.Mult())
+            a, b = args
+            if dotted == 'numpy.outer':
+                a, b = a.view((a.size,)), b.view((b.size,))
+            return FArr.of(a.shape + b.shape, [self.cell_binop(op, x, y, node) for x in a.values() for y in b.values()])
+        if dotted == 'struct.Struct' and args and isinstance(args[0], Const) and isinstance(args[0].v, (str, bytes)):
+            return StructV(args[0].v if isinstance(args[0].v, str) else args[0].v.decode())
         a0 = args[0] if args else None
         np_ = dotted[6:] if dotted.startswith('numpy.') else None
         if np_ in _NP_TYPES and not args:
@@ -845,10 +999,55 @@ class FileDomain(NormDomain):
             r = range(*[self._int(x) for x in args])
             if len(r) <= 5000:
                 return FArr.of((len(r),), [Const(i) for i in r], DType('i', 8))
+        if np_ == 'linspace' and len(args) >= 2:
+            num = self._int(kwargs.get('num', args[2] if len(args) > 2 else Const(50)))
+            lo, hi = self.rat(args[0]), self.rat(args[1])
+            endpoint = kwargs.get('endpoint', Const(True))
+            if num is not None and 0 < num <= 64 and lo is not None and hi is not None and isinstance(endpoint, Const):
+                den = (num - 1) if endpoint.v else num
+                cells = [self.lift(lo + (hi - lo) * Fraction(k, den)) if den else self.lift(lo) for k in range(num)]
+                return FArr.of((num,), cells)
+        if np_ == 'meshgrid' and len(args) == 2 and all(isinstance(a, FArr) and a.ndim == 1 for a in args):
+            ind = kwargs.get('indexing', Const('xy'))
+            if isinstance(ind, Const) and ind.v in ('xy', 'ij'):
+                x, y = args
+                if ind.v == 'xy':
+                    return Tup([FArr.of((y.size, x.size), [x.boxes[j].v for i in range(y.size) for j in range(x.size)]),
+                                FArr.of((y.size, x.size), [y.boxes[i].v for i in range(y.size) for j in range(x.size)])], 'list')
+                return Tup([FArr.of((x.size, y.size), [x.boxes[i].v for i in range(x.size) for j in range(y.size)]),
+                            FArr.of((x.size, y.size), [y.boxes[j].v for i in range(x.size) for j in range(y.size)])], 'list')
+        if np_ in ('stack', 'vstack', 'hstack', 'concatenate', 'column_stack', 'dstack') and args and isinstance(a0, Tup):
+            parts = [self.from_nested(x, node) if isinstance(x, Tup) else x for x in a0.items]
+            if parts and all(isinstance(x, FArr) for x in parts):
+                ax = self._int(kwargs.get('axis', args[1] if len(args) > 1 else Const(0)))
+                if np_ == 'stack' and ax is not None and all(x.shape == parts[0].shape for x in parts):
+                    first = FArr.of((len(parts),) + parts[0].shape, [v for x in parts for v in x.values()])
+                    k = ax % (parts[0].ndim + 1)
+                    if k == 0:
+                        return first
+                    perm = list(range(1, first.ndim))
+                    perm.insert(k, 0)
+                    return first.axis_perm(perm)
+                if np_ == 'column_stack' and all(x.ndim == 1 and x.size == parts[0].size for x in parts):
+                    return FArr.of((parts[0].size, len(parts)), [x.boxes[i].v for i in range(parts[0].size) for x in parts])
+                if np_ == 'vstack' and all(x.ndim == 1 and x.size == parts[0].size for x in parts):
+                    return FArr.of((len(parts), parts[0].size), [v for x in parts for v in x.values()])
+                if np_ in ('concatenate', 'hstack') and all(x.ndim == 1 for x in parts) and (ax in (0, None) or np_ == 'hstack'):
+                    return FArr.of((sum(x.size for x in parts),), [v for x in parts for v in x.values()])
+                if np_ in ('concatenate', 'vstack') and ax == 0 and all(x.ndim == parts[0].ndim and x.shape[1:] == parts[0].shape[1:] for x in parts):
+                    return FArr.of((sum(x.shape[0] for x in parts),) + parts[0].shape[1:], [v for x in parts for v in x.values()])
+            return Unknown('%s of parts that are not followed' % np_)
+        if np_ in ('ones_like', 'zeros_like', 'empty_like', 'full_like') and isinstance(a0, FArr):
+            fill = {'ones_like': Const(1), 'zeros_like': Const(0), 'empty_like': Junk('uninitialised memory')}.get(np_) or (args[1] if len(args) > 1 else kwargs.get('fill_value'))
+            return FArr.of(a0.shape, [fill] * a0.size, as_dtype(kwargs.get('dtype')) or a0.dtype)
+        if np_ in ('matmul', 'dot') and len(args) == 2 and all(isinstance(a, FArr) for a in args):
+            return self.matmul(args[0], args[1], node)
+        if dotted == 'numpy.linalg.lstsq' and len(args) >= 2 and isinstance(a0, FArr) and isinstance(args[1], FArr):
+            return self.lstsq(a0, args[1], node)
         if np_ in ('frombuffer', 'fromstring', 'fromfile', 'loadtxt', 'genfromtxt', 'savetxt', 'save', 'load'):
             return self.np_io(np_, args, kwargs, node)
         if np_ in ('finfo', 'iinfo'):
-            return Unknown('machine limits')
+            return FInfo(np_)
         if dotted.startswith('struct.'):
             return self.struct_fn(dotted[7:], args, kwargs, node)
         if dotted == 'ctypes.create_string_buffer' and args:
@@ -876,6 +1075,15 @@ class FileDomain(NormDomain):
             if isinstance(a0, (Text, Const)) and len(args) == 2:
                 return self.text_method(a0, 'encode', args[1:], {}, node)
             return Unknown('bytes of a value that is not followed')
+        if dotted == 'builtins.range' and args and all(self._int(x) is not None for x in args) and not kwargs:
+            rg = range(*[self._int(x) for x in args])
+            if len(rg) <= 5000:
+                return Tup([Const(i) for i in rg], 'range')
+        if dotted in ('math.prod', 'numpy.prod', 'math.fsum') and len(args) == 1 and isinstance(a0, Tup):
+            acc = Const(1 if 'prod' in dotted else 0)
+            for x in a0.items:
+                acc = self.interp.binop(ast.Mult() if 'prod' in dotted else ast.Add(), acc, x, node)
+            return acc
         if dotted == 'builtins.memoryview' and args:
             return a0
         if dotted == 'builtins.len' and args:
@@ -926,15 +1134,101 @@ class FileDomain(NormDomain):
             self.warned.append(node)
             self.interp.emit('warn', node=node)
             return Const(None)
+        if dotted in ('numpy.cos', 'numpy.sin', 'math.cos', 'math.sin') and len(args) == 1 and isinstance(a0, Sym):
+            # multiples of pi/2: exact values
+            q = a0.r / (Rat(self.R.atom('pi')) / 2)
+            if q.num.is_const() and q.den.is_const():
+                c = q.num.const_value() / q.den.const_value()
+                if c.denominator == 1:
+                    k = int(c) % 4
+                    return Const((1, 0, -1, 0)[k] if dotted.endswith('cos') else (0, 1, 0, -1)[k])
+        if dotted in ('builtins.max', 'builtins.min') and kwargs:
+            if all(isinstance(x, Const) for x in args) and set(kwargs) == {'key'}:
+                return None
+            from ..core.interp import BuiltinRef
+            k = kwargs.get('key')
+            vals = a0.items if len(args) == 1 and isinstance(a0, Tup) else args
+            if set(kwargs) == {'key'} and ((isinstance(k, BuiltinRef) and k.name == 'abs') or (isinstance(k, ExtRef) and k.dotted in ('numpy.abs', 'numpy.absolute', 'math.fabs'))) \
+                    and len(vals) >= 2 and all(self.rat(x) is not None for x in vals):
+                return self.func_atom(dotted[9:] + '_by_abs', sorted(vals, key=lambda x: self.rat(x).key()))      # the one of largest |.|, with its sign
+            return Unknown('%s with a key / default' % dotted[9:])
         if dotted in ('builtins.max', 'builtins.min') and len(args) == 1 and isinstance(a0, FArr):
             return self.call_ext('numpy.' + dotted[9:], args, kwargs, node)
         if dotted in ('builtins.abs', 'numpy.abs', 'numpy.absolute', 'numpy.fabs') and (isinstance(a0, (Junk, Unknown)) or is_nan(a0)):
             return a0
+        if dotted == 'builtins.abs' and isinstance(a0, FArr):
+            return self.np_array_fn('abs', a0, args, kwargs, node)
         if dotted == 'builtins.print':
             return Const(None)
         if dotted in ('builtins.max', 'builtins.min', 'builtins.abs') and any(isinstance(x, (Junk, Unknown)) for x in args):
             return [x for x in args if isinstance(x, (Junk, Unknown))][0]
         return NormDomain.call_ext(self, dotted, args, kwargs, node)
+
+    def matmul(self, a, b, node):
+        it = self.interp
+        A = a if a.ndim == 2 else a.view((1, a.size))
+        B = b if b.ndim == 2 else b.view((b.size, 1))
+        if A.ndim != 2 or B.ndim != 2 or A.shape[1] != B.shape[0]:
+            raise AbsRaise('ValueError', node)
+        out = []
+        for i in range(A.shape[0]):
+            for j in range(B.shape[1]):
+                acc = Const(0)
+                for k in range(A.shape[1]):
+                    acc = self.cell_binop(ast.Add(), acc, self.cell_binop(ast.Mult(), A.boxes[i * A.shape[1] + k].v, B.boxes[k * B.shape[1] + j].v, node), node)
+                out.append(acc)
+        shape = (A.shape[0], B.shape[1])
+        if a.ndim == 1 and b.ndim == 1:
+            return out[0]
+        if a.ndim == 1:
+            shape = (B.shape[1],)
+        elif b.ndim == 1:
+            shape = (A.shape[0],)
+        return FArr.of(shape, out)
+
+    def lstsq(self, A, b, node):
+        """exact least squares: the design matrix must be numbers (rational, after NORM's simplification), the right-hand side may be symbolic"""
+        if A.ndim != 2 or b.ndim != 1 or A.shape[0] != b.size:
+            return Unknown('lstsq of shapes that are not (m, k), (m,)')
+        m, k = A.shape
+        rows = []
+        for i in range(m):
+            row = []
+            for j in range(k):
+                r = self.rat(A.boxes[i * k + j].v)
+                if r is None or not (r.num.is_const() and r.den.is_const()):
+                    return Unknown('lstsq with a design matrix that is not numeric')
+                row.append(r.num.const_value() / r.den.const_value())
+            rows.append(row)
+        rhs = [self.rat(x) for x in b.values()]
+        if any(x is None for x in rhs):
+            return Unknown('lstsq with a right-hand side that is not followed')
+        one = Rat(self.R.const(1))
+        N = [[sum(rows[i][p] * rows[i][q] for i in range(m)) for q in range(k)] for p in range(k)]
+        y = []
+        for p in range(k):
+            acc = Rat(self.R.const(0))
+            for i in range(m):
+                if rows[i][p] != 0:
+                    acc = acc + rhs[i] * rows[i][p]
+            y.append(acc)
+        # Gaussian elimination on the normal equations
+        for c in range(k):
+            piv = next((r_ for r_ in range(c, k) if N[r_][c] != 0), None)
+            if piv is None:
+                return Unknown('rank-deficient least squares')
+            N[c], N[piv] = N[piv], N[c]
+            y[c], y[piv] = y[piv], y[c]
+            pv = N[c][c]
+            N[c] = [v / pv for v in N[c]]
+            y[c] = y[c] * (1 / Fraction(pv))
+            for r_ in range(k):
+                if r_ != c and N[r_][c] != 0:
+                    f = N[r_][c]
+                    N[r_] = [v - f * w for v, w in zip(N[r_], N[c])]
+                    y[r_] = y[r_] - y[c] * f
+        coef = FArr.of((k,), [self.lift(v) for v in y])
+        return Tup([coef, Unknown('residuals'), Const(k), Unknown('singular values')])
 
     def isinstance_(self, v, cls):
         from ..core.interp import BuiltinRef
@@ -1047,14 +1341,24 @@ class FileDomain(NormDomain):
             base = f[3:] if nan_aware else {'amin': 'min', 'amax': 'max'}.get(f, f)
             if all(isinstance(x, Const) for x in vals) and base in ('min', 'max', 'sum'):
                 return Const({'min': min, 'max': max, 'sum': sum}[base](x.v for x in vals))
-            if base == 'sum':
+            if base in ('sum', 'mean'):
                 acc = Const(0)
                 for x in vals:
                     acc = self.interp.binop(ast.Add(), acc, x, node)
-                return acc
+                return acc if base == 'sum' else self.interp.binop(ast.Div(), acc, Const(len(vals)), node)
             # an order statistic of the valid cells: one opaque number per (statistic, set of cells)
             key = '%s{%s}' % (base, ','.join(sorted(self.key(x) or repr(x) for x in vals)))
+            self.stats[key] = (base, [self.rat(x) for x in vals])
             return self.sym(key)
+        if f in ('any', 'all') and ('axis' in kwargs or len(args) > 1) and not (isinstance(kwargs.get('axis', args[1] if len(args) > 1 else None), Const)
+                                                                              and kwargs.get('axis', args[1] if len(args) > 1 else None).v is None):
+            return self.reduce_axis(f, a, kwargs.get('axis', args[1] if len(args) > 1 else None), node)
+        if f in ('argmax', 'argmin', 'nanargmax', 'nanargmin') and len(args) == 1 and not kwargs:
+            vals = self._vals(a)
+            if vals and all(isinstance(x, Const) and not is_nan(x) for x in vals):
+                nums = [x.v for x in vals]
+                return Const(nums.index(max(nums) if 'max' in f else min(nums)))
+            return Unknown('%s of cells that are not constants' % f)
         if f in ('any', 'all'):
             vals = self._vals(a)
             if all(isinstance(x, Const) for x in vals):
@@ -1065,22 +1369,51 @@ class FileDomain(NormDomain):
             if all(isinstance(x, Const) for x in vals):
                 return Const(sum(1 for x in vals if x.v))
         if f in ('abs', 'absolute', 'fabs', 'negative', 'sqrt', 'square'):
-            return self.emap(lambda x: x if (isinstance(x, (Junk, Unknown)) or is_nan(x)) else
-                             (self.interp.call_value(ExtRef('numpy.' + f), [x], {}, node, None)), a)
+            def one(x):
+                if isinstance(x, (Junk, Unknown)) or is_nan(x):
+                    return x
+                if isinstance(x, Const) and isinstance(x.v, (int, float)) and f in ('abs', 'absolute', 'fabs', 'negative', 'square'):
+                    return Const({'abs': abs, 'absolute': abs, 'fabs': abs, 'negative': lambda z: -z, 'square': lambda z: z * z}[f](x.v))
+                return self.interp.call_value(ExtRef('numpy.' + f), [x], {}, node, None)
+            return self.emap(one, a)
         if f == 'where' and len(args) == 3:
             def pick(c, x, y):
                 if isinstance(c, Const):
                     return x if c.v else y
                 return Unknown('where with a condition that is not decided')
             return self.emap(pick, a, args[1], args[2])
-        if f == 'where' and len(args) == 1:
-            return Unknown('where (indices)')
+        if (f == 'where' and len(args) == 1) or f in ('nonzero', 'flatnonzero', 'argwhere'):
+            vals = self._vals(a)
+            if not all(isinstance(x, Const) for x in vals):
+                return Unknown('%s of cells that are not decided' % f)
+            hits = [idx for idx, x in zip(itertools.product(*[range(d) for d in a.shape]), vals) if x.v]
+            if f == 'flatnonzero':
+                return FArr.of((len(hits),), [Const(a.flat_index(h)) for h in hits], DType('i', 8))
+            if f == 'argwhere':
+                return FArr.of((len(hits), a.ndim), [Const(i) for h in hits for i in h], DType('i', 8))
+            return Tup([FArr.of((len(hits),), [Const(h[k]) for h in hits], DType('i', 8)) for k in range(a.ndim)])
         if f == 'nan_to_num':
             return Unknown('nan_to_num')
+        if f == 'broadcast_to' and len(args) == 2:
+            dims = [self._int(x) for x in (args[1].items if isinstance(args[1], Tup) else [args[1]])]
+            if None in dims or len(dims) < a.ndim:
+                return Unknown('broadcast_to a shape that is not followed')
+            src = (1,) * (len(dims) - a.ndim) + a.shape
+            if any(s_ not in (1, d) for s_, d in zip(src, dims)):
+                raise AbsRaise('ValueError', node)
+            boxes = []
+            for idx in itertools.product(*[range(d) for d in dims]):
+                k = 0
+                for i, s_ in zip(idx, src):
+                    k = k * s_ + (0 if s_ == 1 else i)
+                boxes.append(a.boxes[k])
+            return FArr(tuple(dims), boxes, a.dtype, a.swapped)
         if f in ('shape', 'ndim', 'size'):
             return self.getattr(a, f, node)
         if f in ('multiply', 'add', 'subtract', 'divide', 'true_divide') and len(args) == 2:
             return self.binop({'multiply': ast.Mult(), 'add': ast.Add(), 'subtract': ast.Sub(), 'divide': ast.Div(), 'true_divide': ast.Div()}[f], a, args[1], node)
+        if f in _ELEMENTWISE and len(args) <= 2 and not kwargs and all(isinstance(x, FArr) or self.is_cell(x) for x in args):
+            return self.emap(lambda *cells: self.scalar_fn(f, list(cells), node), *args)
         if f in ('concatenate', 'hstack', 'vstack', 'stack'):
             return None
         if f in ('putmask', 'place', 'copyto') and len(args) == 3:
@@ -1088,6 +1421,22 @@ class FileDomain(NormDomain):
             self.store_subscript(a, m, val, node)
             return Const(None)
         return None
+
+    def scalar_fn(self, f, cells, node):
+        for x in cells:
+            if isinstance(x, (Junk, Unknown)) or is_nan(x):
+                return x
+        if all(isinstance(x, Const) and isinstance(x.v, (int, float)) and not isinstance(x.v, bool) for x in cells):
+            try:
+                fn = {'maximum': max, 'minimum': min, 'power': pow, 'sign': lambda z: (z > 0) - (z < 0), 'arctan2': math.atan2, 'arccos': math.acos, 'arcsin': math.asin,
+                      'arctan': math.atan, 'deg2rad': math.radians, 'rad2deg': math.degrees}.get(f) or getattr(math, f)
+                v = fn(*[x.v for x in cells])
+                if isinstance(v, float) and v == int(v) and abs(v) < 2 ** 53 and all(isinstance(x.v, int) for x in cells) and f in ('hypot', 'sqrt', 'power', 'maximum', 'minimum'):
+                    v = int(v)
+                return Const(v)
+            except (ValueError, ZeroDivisionError, OverflowError):
+                return Junk('%s outside its domain' % f)
+        return self.interp.call_value(ExtRef('numpy.' + f), list(cells), {}, node, None)
 
     def reduce_axis(self, f, a, ax, node):
         k = self._int(ax)
@@ -1518,7 +1867,13 @@ class FileDomain(NormDomain):
         if any(x[0] == '?' for x in items if not isinstance(x, int)):
             return Unknown('bytes that are not followed')
         self.interp.emit('layout-mismatch', node=node, wrote='parts of %d values' % (len(fids) + (1 if any(isinstance(x, int) for x in items) else 0)), reads=code, what=what)
-        return Junk('a number assembled from parts of different stored values or padding')
+        j = Junk('a number assembled from parts of different stored values or padding')
+        lead = [x for x in items if not isinstance(x, int)]
+        if len(fids) == 1 and code[0] == '>' and code[1] in 'bhilq' and [x[1] for x in lead] == list(range(len(lead))) and lead[0][2] == n \
+                and items[:len(lead)] == lead and all(x == 0 for x in items[len(lead):]) and self.fields[list(fids)[0]][0] == code:
+            j = Junk('the leading %d of the %d bytes of a stored sample, padded with zeros' % (len(lead), n))
+            j.in_range = True
+        return j
 
     def decoded_value(self, val, code):
         if isinstance(val, Sym) and self.count_range is not None and code[1] not in 'efd':
@@ -1568,6 +1923,8 @@ class FileDomain(NormDomain):
                         raise AbsRaise('error', node)
                     out.extend(self.field_bytes(order + k, x))
             if vals:
+                import os
+                if os.environ.get('SA_DEBUG_UNKNOWN'): print('STRUCT leftover', fmt, vals, args)
                 raise AbsRaise('error', node)
             if f == 'pack':
                 return BytesV(out)
@@ -1880,6 +2237,14 @@ class FileDomain(NormDomain):
                 h.pos += off + count * n
             return FArr.of((count,), cells, dt)
         return Unknown('numpy.%s' % f)
+
+    def on_branch(self, test, truth, frame):
+        if isinstance(test, ast.Compare) and len(test.ops) == 1:
+            try:
+                lhs, rhs = self.interp.ev(test.left, frame), self.interp.ev(test.comparators[0], frame)
+            except Exception:
+                return
+            self.interp.emit('test', left=lhs, op=type(test.ops[0]).__name__, right=rhs, truth=truth, text=ast.unparse(test))
 
     # ------------------------------------------------------------------ loops: run them (everything they test is concrete here)
     LOOP_FUEL = 20000
